@@ -1,6 +1,7 @@
 import XMT.Drv.Util
 import XMT.Route
 import XMT.RouteProxy
+import XMT.RouteChan
 namespace XMT.Drv.C15
 open XMT XMT.Route XMT.Drv
 
@@ -154,6 +155,40 @@ def parseIds (s : String) : Option (List ID) := do
   let l ← (splitOn1 s ',').mapM ofHex
   if l.all (fun i => i.length == Facts.c15IDSize) then some l else none
 
+
+/-! channel-mode tag handling (XMT/RouteChan.lean): `chan <id,id,…> <step> …`; ids[0] is the host of
+the connection. Steps: `H<i>` registration of ids[i]; `C<tag>+<tag>…` one packet read from the channel
+(`-` = no tags; a tag is `i<k>` = hash of ids[k] or `n<value>`); answers list the Sessions whose queue
+is redirected to the connection afterwards. -/
+
+def chanRedirected (ids : List ID) (t : RouteChan.CTbl) : String :=
+  listOr (sortStr ((t.filter (fun e => e.2.chn == some 1)).map (fun e => idxOf ids e.2.id)))
+
+def parseTag (ids : List ID) (s : String) : Option Nat :=
+  match s.front with
+  | 'i' => do let k ← natOf (s.drop 1).toString; let d ← ids[k]?; some (idHash d)
+  | 'n' => natOf (s.drop 1).toString
+  | _ => none
+
+def chanRun (ids : List ID) : RouteChan.CTbl → RouteChan.Conn → List String → List String → Option String
+  | _, _, [], acc => some (" | ".intercalate acc.reverse)
+  | t, c, tok :: toks, acc =>
+    let rest := (tok.drop 1).toString
+    match tok.front with
+    | 'H' => do
+      let k ← natOf rest
+      let d ← ids[k]?
+      let t' := if idEmpty d then t else match t.get (idHash d) with
+        | some _ => t
+        | none => t ++ [(idHash d, { id := d, chn := none })]
+      chanRun ids t' c toks ("H" :: acc)
+    | 'C' => do
+      let tags ← if rest = "-" then some [] else (splitOn1 rest '+').mapM (parseTag ids)
+      match RouteChan.resolve c tags t with
+      | none => chanRun ids t c toks (s!"C:err r={chanRedirected ids t}" :: acc)
+      | some (t', c') => chanRun ids t' c' toks (s!"C:ok r={chanRedirected ids t'}" :: acc)
+    | _ => none
+
 def handle (args : List String) : String :=
   match args with
   | ["hash", a, b] =>
@@ -164,6 +199,10 @@ def handle (args : List String) : String :=
     match parseIds ids with
     | some ids => (srvRun ids [] toks []).getD "bad-op"
     | none => "bad-op"
+  | "chan" :: ids :: toks =>
+    match parseIds ids with
+    | some (host :: rest) => (chanRun (host :: rest) [] { cid := 1, host := host, subs := [] } toks []).getD "bad-op"
+    | _ => "bad-op"
   | "prx" :: ids :: toks =>
     match parseIds ids with
     | some (parent :: rest) => (prxRun (parent :: rest) parent [] toks []).getD "bad-op"
